@@ -195,8 +195,11 @@ def front_trimmed(kind, serial, K=62):
 
 
 def halfrate_extra_files():
-    """front-trimmed links (start discard interacts with the half-rate sample shift)"""
-    return {'FT': chain('FT', [front_trimmed('A', 951, 62), front_trimmed('B', 952, 30), link('A', 953, '3')])}
+    """front-trimmed links (start discard interacts with the half-rate sample shift); a chain whose LAST link has odd length and a
+    single odd-length link (ceil(N/2); link starts stay even so that 'the even position at or below the target' is well defined)"""
+    return {'FT': chain('FT', [front_trimmed('A', 951, 62), front_trimmed('B', 952, 30), link('A', 953, '3')]),
+            'FO': chain('FO', [link('A', 961, '3'), link('B', 962, '2', n=2501)]),
+            'FO1': chain('FO1', [link('K', 963, 'natural', n=4101)])}
 
 
 def halfrate_refusal_files():
